@@ -186,4 +186,43 @@ def check_case(case) -> Result:
             what = "cutoff" if (W[i, j] == 0) != (Mx[i, j] == 0) and not (slm_active and (i in masked or j in masked)) else (
                 "slm" if (slm_active and (i in masked or j in masked)) else "value")
             r.fail(f"matrix_entry:{what}:{phase}", f"t={t} (mask end {end}, T={T}) entry ({i},{j}): got {Mx[i, j]!r} want {W[i, j]!r}; cutoff={cutoff!r}")
+    # ---- register (atom position) noise: every noise trajectory has its own register, hence its own matrix
+    import json as _json
+    import zlib
+
+    seed_ = zlib.crc32(_json.dumps(case, sort_keys=True).encode())  # a deterministic function of the generated case
+    if basis == "rydberg" and arr is None and n >= 2 and seed_ % 3 == 0:
+        import pulser
+
+        nmr = pulser.NoiseModel(temperature=80.0, trap_waist=1.0, trap_depth=150.0, disable_doppler=True)
+        with warnings.catch_warnings():
+            warnings.simplefilter("ignore")
+            cfg_r = cut(e2e.sv_config, dt=5, observables=e2e.observables(["occupation"], [1.0], None), noise_model=nmr, n_trajectories=3)
+        np.random.seed(seed_ % (2**32))
+        pd_r = cut(PulserData, sequence=seq, config=cfg_r, dt=5)
+        trajs = [s_.trajectory for s_ in pd_r.hamiltonian.noisy_samples for _ in range(s_.reps)]
+        sds = cut(lambda: list(pd_r.get_sequences()))
+        r.label("register_noise_trajectories")
+        if len(sds) != len(trajs):
+            r.fail("register_noise:trajectory_count", f"{len(sds)} sequences for {len(trajs)} requested trajectories")
+            return r
+        c6 = float(seq.device.interaction_coeff)
+        distinct = set()
+        for k_, (sd_, tr_) in enumerate(zip(sds, trajs)):
+            pos = np.array([np.asarray(tr_.register.qubits[q], dtype=float) for q in ids])
+            wantr = np.zeros((n, n))
+            for i in range(n):
+                for j in range(n):
+                    if i != j:
+                        wantr[i, j] = c6 / np.linalg.norm(pos[i] - pos[j]) ** 6
+            gotr = cut(sd_.interaction_matrix, T).numpy().copy()
+            np.fill_diagonal(gotr, 0.0)
+            distinct.add(tuple(np.round(wantr[np.triu_indices(n, 1)], 9)))
+            if np.abs(gotr - wantr).max() > 1e-5 * np.abs(wantr).max():
+                r.fail("register_noise:matrix_not_from_the_trajectory_register",
+                       f"trajectory {k_}: entries {np.round(gotr[np.triu_indices(n, 1)], 4).tolist()} vs C6/r^6 of its own register "
+                       f"{np.round(wantr[np.triu_indices(n, 1)], 4).tolist()}")
+                break
+        if len(distinct) > 1:
+            r.nontrivial = True
     return r
